@@ -236,7 +236,7 @@ def s_sum(ex, st, fr, args, info):
             ex.assert_sites.setdefault(ex.site(fr) + ':sum', [0, 0, 'sum overflow'])[0] += 1
             if bad:
                 ex.record_panic(st, fr, 'library', 'attempt to add with overflow (Iterator::sum)', model)
-                ex.solver.add(z3.Not(o.t))
+                ex.assume(z3.Not(o.t))
         acc = r.f[0]
     return acc
 
@@ -388,7 +388,7 @@ def s_unwrap(ex, st, fr, args, info):
         bad, model = ex.check(v.err)
         if bad:
             ex.record_panic(st, fr, 'library', 'called `Result::unwrap()` on an `Err` value', model)
-            ex.solver.add(z3.Not(v.err))
+            ex.assume(z3.Not(v.err))
         return v.ok
     if v.variant in ('Some', 'Ok'):
         return v.f[0]
@@ -543,7 +543,7 @@ def _checked_refop(op):
             bad, model = ex.possible(o.t, ex.site(fr) + ':lib')
             if bad:
                 ex.record_panic(st, fr, 'library', 'attempt to %s with overflow' % op.lower(), model)
-                ex.solver.add(z3.Not(o.t))
+                ex.assume(z3.Not(o.t))
         return r.f[0]
     return f
 
@@ -568,7 +568,7 @@ def s_shift(ex, st, fr, args, info):
         bad, model = ex.possible(big.t, ex.site(fr) + ':lib')
         if bad:
             ex.record_panic(st, fr, 'library', 'attempt to shift %s with overflow' % what, model)
-            ex.solver.add(z3.Not(big.t))
+            ex.assume(z3.Not(big.t))
     return binop('Shr' if info['method'] == 'shr' else 'Shl', a, b)
 
 
@@ -608,7 +608,7 @@ def s_abs(ex, st, fr, args, info):
         bad, model = ex.possible(ismin.t, ex.site(fr) + ':lib')
         if bad:
             ex.record_panic(st, fr, 'library', 'attempt to negate with overflow (abs)', model)
-            ex.solver.add(z3.Not(ismin.t))
+            ex.assume(z3.Not(ismin.t))
     if a.conc: return mkint(abs(a.t), a.ty)
     return lift(simp(z3.If(a.t < 0, -a.t, a.t)), a.ty)
 
@@ -732,5 +732,352 @@ def s_neg(ex, st, fr, args, info):
         bad, model = ex.possible(ismin.t, ex.site(fr) + ':lib')
         if bad:
             ex.record_panic(st, fr, 'library', 'attempt to negate with overflow', model)
-            ex.solver.add(z3.Not(ismin.t))
+            ex.assume(z3.Not(ismin.t))
     return unop('Neg', a)
+
+
+# ---------------------------------------------------------------------------------------------- more library surface
+# (added so that realistic refactorings of the code under test still execute instead of ending inconclusive)
+@summary('slice::chunks_exact', 'slice::chunks')
+def s_slice_chunks(ex, st, fr, args, info):
+    r = args[0]; k = ex.conc_int(st, args[1])
+    if k == 0: lib_panic(ex, st, fr, 'chunk size must be non-zero')
+    n = ex.slice_len(st, r); base = r.rng[0] if r.rng else 0
+    out = []
+    i = 0
+    while i + k <= n:
+        out.append(Ref(r.loc, (base + i, k))); i += k
+    if info['method'] == 'chunks' and i < n:
+        out.append(Ref(r.loc, (base + i, n - i)))
+    return It('list', tuple(out), 0)
+
+
+@summary('slice::windows')
+def s_slice_windows(ex, st, fr, args, info):
+    r = args[0]; k = ex.conc_int(st, args[1])
+    n = ex.slice_len(st, r); base = r.rng[0] if r.rng else 0
+    return It('list', tuple(Ref(r.loc, (base + i, k)) for i in range(0, max(0, n - k + 1))), 0)
+
+
+@summary('slice::iter_mut', 'Vec::iter_mut')
+def s_iter_mut(ex, st, fr, args, info):
+    return s_slice_iter(ex, st, fr, args, info)
+
+
+@summary('Extend::extend', 'Vec::extend')
+def s_extend(ex, st, fr, args, info):
+    loc = as_loc(args[0])
+    items = it_drain(ex, st, to_iter(ex, st, args[1]))
+    items = [ex.deref(st, x) if (isinstance(x, Ref) and 'Extend<&' in info['raw']) else x for x in items]
+    v = ex.load(st, loc)
+    ex.store(st, loc, Seq(v.kind, v.e + tuple(items)))
+    return UNIT
+
+
+@summary('Vec::extend_from_slice')
+def s_extend_from_slice(ex, st, fr, args, info):
+    loc = as_loc(args[0]); v = ex.load(st, loc)
+    ex.store(st, loc, Seq(v.kind, v.e + tuple(ex.slice_elems(st, args[1]))))
+    return UNIT
+
+
+@summary('Vec::truncate')
+def s_truncate(ex, st, fr, args, info):
+    loc = as_loc(args[0]); v = ex.load(st, loc); k = ex.conc_int(st, args[1])
+    ex.store(st, loc, Seq(v.kind, v.e[:k]))
+    return UNIT
+
+
+@summary('Vec::clear')
+def s_clear(ex, st, fr, args, info):
+    loc = as_loc(args[0]); v = ex.load(st, loc)
+    ex.store(st, loc, Seq(v.kind, ()))
+    return UNIT
+
+
+@summary('Vec::pop')
+def s_pop(ex, st, fr, args, info):
+    loc = as_loc(args[0]); v = ex.load(st, loc)
+    if not v.e: return NONE
+    ex.store(st, loc, Seq(v.kind, v.e[:-1]))
+    return Some(v.e[-1])
+
+
+@summary('Vec::resize')
+def s_resize(ex, st, fr, args, info):
+    loc = as_loc(args[0]); v = ex.load(st, loc); k = ex.conc_int(st, args[1])
+    e = v.e[:k] + (args[2],) * max(0, k - len(v.e))
+    ex.store(st, loc, Seq(v.kind, e))
+    return UNIT
+
+
+@summary('slice::copy_from_slice', 'slice::clone_from_slice')
+def s_copy_from_slice(ex, st, fr, args, info):
+    d, s_ = args
+    se = ex.slice_elems(st, s_); n = ex.slice_len(st, d)
+    if len(se) != n: lib_panic(ex, st, fr, 'source slice length (%d) does not match destination slice length (%d)' % (len(se), n))
+    base = d.rng[0] if d.rng else 0
+    cur = ex.load(st, d.loc); e = list(cur.e)
+    e[base:base + n] = se
+    ex.store(st, d.loc, Seq(cur.kind, e))
+    return UNIT
+
+
+@summary('slice::fill')
+def s_fill(ex, st, fr, args, info):
+    d = args[0]; n = ex.slice_len(st, d); base = d.rng[0] if d.rng else 0
+    cur = ex.load(st, d.loc); e = list(cur.e)
+    e[base:base + n] = [args[1]] * n
+    ex.store(st, d.loc, Seq(cur.kind, e))
+    return UNIT
+
+
+@summary('slice::split_at')
+def s_split_at(ex, st, fr, args, info):
+    r = args[0]; k = ex.conc_int(st, args[1]); n = ex.slice_len(st, r); base = r.rng[0] if r.rng else 0
+    if k > n: lib_panic(ex, st, fr, 'mid > len')
+    return Tup(Ref(r.loc, (base, k)), Ref(r.loc, (base + k, n - k)))
+
+
+@summary('slice::get')
+def s_slice_get(ex, st, fr, args, info):
+    r = args[0]; n = ex.slice_len(st, r); base = r.rng[0] if r.rng else 0
+    if isinstance(args[1], V):
+        i = ex.conc_int(st, args[1])
+        return Some(Ref(r.loc.sub(base + i))) if 0 <= i < n else NONE
+    raise Unsupported('slice::get with a range')
+
+
+@summary('slice::contains')
+def s_contains(ex, st, fr, args, info):
+    x = ex.deref(st, args[1])
+    acc = mkbool(False)
+    for e in ex.slice_elems(st, args[0]):
+        acc = binop('BitOr', acc, deep_eq(e, x))
+    return acc
+
+
+@summary('Iterator::fold')
+def s_fold(ex, st, fr, args, info):
+    acc = args[1]
+    for x in it_drain(ex, st, to_iter(ex, st, args[0])):
+        acc = ex.call_value(st, args[2], [acc, x])
+    return acc
+
+
+@summary('Iterator::for_each')
+def s_for_each(ex, st, fr, args, info):
+    for x in it_drain(ex, st, to_iter(ex, st, args[0])):
+        ex.call_value(st, args[1], [x])
+    return UNIT
+
+
+@summary('Iterator::any')
+def s_any(ex, st, fr, args, info):
+    loc = as_loc(args[0])
+    items = it_drain(ex, st, to_iter(ex, st, ex.load(st, loc)))
+    acc = mkbool(False)
+    for x in items:
+        acc = binop('BitOr', acc, ex.call_value(st, args[1], [x]))
+    ex.store(st, loc, It('list', (), 0))
+    return acc
+
+
+@summary('Iterator::filter_map')
+def s_filter_map(ex, st, fr, args, info):
+    out = []
+    for x in it_drain(ex, st, to_iter(ex, st, args[0])):
+        r = ex.call_value(st, args[1], [x])
+        if r.variant == 'Some': out.append(r.f[0])
+    return It('list', tuple(out), 0)
+
+
+@summary('Iterator::chain')
+def s_chain(ex, st, fr, args, info):
+    return It('list', tuple(it_drain(ex, st, to_iter(ex, st, args[0])) + it_drain(ex, st, to_iter(ex, st, args[1]))), 0)
+
+
+@summary('Iterator::last')
+def s_it_last(ex, st, fr, args, info):
+    items = it_drain(ex, st, to_iter(ex, st, args[0]))
+    return Some(items[-1]) if items else NONE
+
+
+@summary('Iterator::nth')
+def s_it_nth(ex, st, fr, args, info):
+    loc = as_loc(args[0]); it = ex.load(st, loc); k = ex.conc_int(st, args[1])
+    x = None
+    for _ in range(k + 1):
+        it, x = it_next(ex, st, it)
+        if x is None: break
+    ex.store(st, loc, it)
+    return NONE if x is None else Some(x)
+
+
+@summary('Iterator::take_while')
+def s_take_while(ex, st, fr, args, info):
+    out = []
+    for x in it_drain(ex, st, to_iter(ex, st, args[0])):
+        cell = st.alloc(x)
+        if not ex.conc_bool(st, ex.call_value(st, args[1], [Ref(cell)])): break
+        out.append(x)
+    return It('list', tuple(out), 0)
+
+
+@summary('Iterator::position')
+def s_position(ex, st, fr, args, info):
+    loc = as_loc(args[0]); it = ex.load(st, loc)
+    i = 0
+    while True:
+        it, x = it_next(ex, st, it)
+        if x is None:
+            ex.store(st, loc, it); return NONE
+        if ex.conc_bool(st, ex.call_value(st, args[1], [x])):
+            ex.store(st, loc, it); return Some(mkint(i, 'usize'))
+        i += 1
+
+
+@summary('Iterator::find')
+def s_find(ex, st, fr, args, info):
+    loc = as_loc(args[0]); it = ex.load(st, loc)
+    while True:
+        it, x = it_next(ex, st, it)
+        if x is None:
+            ex.store(st, loc, it); return NONE
+        cell = st.alloc(x)
+        if ex.conc_bool(st, ex.call_value(st, args[1], [Ref(cell)])):
+            ex.store(st, loc, it); return Some(x)
+
+
+@summary('Option::map', 'Result::map')
+def s_opt_map(ex, st, fr, args, info):
+    v = args[0]
+    if v.variant in ('Some', 'Ok'):
+        return Agg(v.name, v.variant, (ex.call_value(st, args[1], [v.f[0]]),))
+    return v
+
+
+@summary('Result::map_err')
+def s_map_err(ex, st, fr, args, info):
+    v = args[0]
+    if isinstance(v, Agg) and v.variant == 'Err':
+        return Err(ex.call_value(st, args[1], [v.f[0]]))
+    return v
+
+
+@summary('Option::unwrap_or', 'Result::unwrap_or')
+def s_unwrap_or(ex, st, fr, args, info):
+    v = args[0]
+    return v.f[0] if v.variant in ('Some', 'Ok') else args[1]
+
+
+@summary('Option::ok_or')
+def s_ok_or(ex, st, fr, args, info):
+    v = args[0]
+    return Ok(v.f[0]) if v.variant == 'Some' else Err(args[1])
+
+
+@summary('Result::ok')
+def s_res_ok(ex, st, fr, args, info):
+    v = args[0]
+    return Some(v.f[0]) if v.variant == 'Ok' else NONE
+
+
+@summary('Result::is_ok')
+def s_is_ok(ex, st, fr, args, info): return mkbool(ex.deref(st, args[0]).variant == 'Ok')
+@summary('Result::is_err')
+def s_is_err(ex, st, fr, args, info): return mkbool(ex.deref(st, args[0]).variant == 'Err')
+
+
+@summary('int::to_be_bytes', 'int::to_le_bytes')
+def s_to_bytes(ex, st, fr, args, info):
+    a = args[0]; w = WIDTH[a.ty]
+    out = []
+    for k in range(w // 8 - 1, -1, -1):
+        out.append(mkint((a.t >> (8 * k)) & 255, 'u8') if a.conc else lift(simp(z3.Extract(8 * k + 7, 8 * k, a.t)), 'u8'))
+    if info['method'] == 'to_le_bytes': out.reverse()
+    return Seq('arr', out)
+
+
+@summary('int::pow')
+def s_pow(ex, st, fr, args, info):
+    e = ex.conc_int(st, args[1]); acc = mkint(1, args[0].ty)
+    for _ in range(e):
+        acc = S['Mul::mul'](ex, st, fr, [acc, args[0]], info)
+    return acc
+
+
+@summary('int::count_ones', 'int::leading_zeros', 'int::trailing_zeros')
+def s_bitcount(ex, st, fr, args, info):
+    a = ex.conc_int(st, args[0]); w = WIDTH[args[0].ty]; u = a & ((1 << w) - 1)
+    if info['method'] == 'count_ones': return mkint(bin(u).count('1'), 'u32')
+    if info['method'] == 'leading_zeros': return mkint(w - u.bit_length(), 'u32')
+    return mkint((u & -u).bit_length() - 1 if u else w, 'u32')
+
+
+@summary('int::min', 'int::max')
+def s_int_minmax(ex, st, fr, args, info):
+    return s_minmax(ex, st, fr, args, info)
+
+
+@summary('int::checked_add', 'int::checked_sub', 'int::checked_mul')
+def s_checked_arith(ex, st, fr, args, info):
+    from .interp import ovf_op
+    r = ovf_op({'checked_add': 'Add', 'checked_sub': 'Sub', 'checked_mul': 'Mul'}[info['method']], args[0], args[1])
+    if ex.conc_bool(st, r.f[1]): return NONE
+    return Some(r.f[0])
+
+
+@summary('int::saturating_sub')
+def s_sat_sub(ex, st, fr, args, info):
+    a, b = args
+    if signed(a.ty): raise Unsupported('signed saturating_sub')
+    lt = binop('Lt', a, b)
+    if lt.conc: return mkint(0, a.ty) if lt.t else binop('Sub', a, b)
+    return V(z3.If(lt.t, z3.BitVecVal(0, WIDTH[a.ty]), bv(a) - bv(b)), a.ty)
+
+
+@summary('int::div_ceil')
+def s_div_ceil(ex, st, fr, args, info):
+    a, b = ex.conc_int(st, args[0]), ex.conc_int(st, args[1])
+    return mkint(-(-a // b), args[0].ty)
+
+
+@summary('int::is_power_of_two')
+def s_is_pow2(ex, st, fr, args, info):
+    a = ex.conc_int(st, args[0]); return mkbool(a > 0 and a & (a - 1) == 0)
+
+
+@summary('core::mem::swap', 'std::mem::swap')
+def s_swap(ex, st, fr, args, info):
+    a, b = as_loc(args[0]), as_loc(args[1])
+    x, y = ex.load(st, a), ex.load(st, b)
+    ex.store(st, a, y); ex.store(st, b, x)
+    return UNIT
+
+
+@summary('core::mem::replace', 'std::mem::replace')
+def s_replace(ex, st, fr, args, info):
+    a = as_loc(args[0]); x = ex.load(st, a); ex.store(st, a, args[1]); return x
+
+
+@summary('core::mem::take', 'std::mem::take')
+def s_take_mem(ex, st, fr, args, info):
+    a = as_loc(args[0]); x = ex.load(st, a)
+    if isinstance(x, Seq): ex.store(st, a, Seq(x.kind, ()))
+    else: raise Unsupported('mem::take of %r' % (x,))
+    return x
+
+
+@summary('From::from')
+def s_from2(ex, st, fr, args, info):
+    raw = info['raw']
+    m = re.match(r'<(\w+) as From<(\w+)>>', raw)
+    if m and m.group(1) in WIDTH and (m.group(2) in WIDTH or m.group(2) == 'bool'):
+        return cast_int(args[0], m.group(1))
+    if raw.startswith('<Vec<') and isinstance(args[0], Seq):
+        return Seq('vec', args[0].e)
+    if raw.startswith('<Vec<') and isinstance(args[0], Ref):
+        return Seq('vec', ex.slice_elems(st, args[0]))
+    return args[0]
+S['Into::into'] = s_from2
